@@ -75,7 +75,7 @@ def size(c):
 def params(chk):
     if chk.tier == "quick":
         return dict(seqlen=6, faultlen=3, nsample=300, schedbits=6, drvlen=4)
-    return dict(seqlen=9, faultlen=5, nsample=50000, schedbits=8, drvlen=6)
+    return dict(seqlen=9, faultlen=5, nsample=100000, schedbits=8, drvlen=6)
 
 
 def run(chk, replay_case=None):
